@@ -282,6 +282,11 @@ impl Cartesian<'_> {
                 .clone();
 
             let transition = self.step_adaptive_linear_transition(&prev.joints, from, to, 0);
+            #[cfg(opw_verif)]
+            crate::verif_hooks::emit("window", || format!(
+                "{{\"kind\":\"{}\",\"waypoints\":{}}}",
+                match &transition { Ok(e) if e.len() == 1 => "direct", Ok(_) => "bisect", Err(_) => "rrt" },
+                match &transition { Ok(e) => e.len(), Err(_) => 0 }));
             match transition {
                 Ok(extension) => {
                     for (p, step) in extension.iter().enumerate() {
@@ -338,8 +343,12 @@ impl Cartesian<'_> {
             );
         }
         if stop.load(Ordering::Relaxed) {
+            #[cfg(opw_verif)]
+            crate::verif_hooks::emit("strategy", || "{\"end\":\"stopped\"}".to_string());
             return Err("Stopped".into());
         }
+        #[cfg(opw_verif)]
+        crate::verif_hooks::emit("strategy", || format!("{{\"end\":\"ok\",\"waypoints\":{}}}", trace.len()));
 
         Ok(trace)
     }
